@@ -16,7 +16,10 @@ class Recipient(t.Generic[KeyType]):
             header: Header | None = None,
             recipient_key: KeyType | None = None):
         self.__parent = parent
-        self.header = header
+        # a header of its own: ``add_header`` stores what belongs to this
+        # recipient only (epk, iv, tag, kid ...), also when one dict is given
+        # for several recipients
+        self.header = dict(header) if header is not None else None
         self.recipient_key = recipient_key
         self.sender_key: t.Optional[KeyType] = None
         self.encrypted_key: t.Optional[bytes] = None
